@@ -1,7 +1,9 @@
 //! C18 driver: `dasp_interpolate::sinc::Sinc` over `ring_buffer::Fixed<Vec<F>>`, directly
 //! (`sinc`: push / interp at x = j/16 / clear, with a fresh twin created at every clear),
 //! through the real `Converter` at ratio 1 (`sinc_conv`), and four interleaved instances fed
-//! a, b, a+b and 2^k a (`sinc_lin`).  Drivers and loggers only.
+//! a, b, a+b and 2^k a (`sinc_lin`).  Frame types `[f64|f32|i16|i32; 1|2]`; the i32 frames carry
+//! values with more than 24 significant bits (the format's Float companion is f32; the interpolator
+//! must not round through it).  Drivers and loggers only.
 use crate::enc::*;
 use dasp_frame::Frame;
 use dasp_interpolate::{sinc::Sinc, Interpolator};
@@ -198,6 +200,8 @@ pub fn exec(out: &mut Out, ex: &[Value]) {
                 ("f32", 2) => $f::<[f32; 2]>(out, ex),
                 ("i16", 1) => $f::<[i16; 1]>(out, ex),
                 ("i16", 2) => $f::<[i16; 2]>(out, ex),
+                ("i32", 1) => $f::<[i32; 1]>(out, ex),
+                ("i32", 2) => $f::<[i32; 2]>(out, ex),
                 _ => panic!("unsupported frame type {} x {}", fmt, ch),
             }
         };
@@ -212,9 +216,14 @@ pub fn exec(out: &mut Out, ex: &[Value]) {
 
 // ---------------------------------------------------------------------------------------- gen
 
-/// a random sample spec of magnitude <= `peak_i` (in i16 units); floats get full-precision mantissas
+/// a random sample spec of magnitude <= `peak_i` (in i16 units); floats get full-precision mantissas,
+/// i32 all 16 low bits (values whose significand does not fit an f32)
 fn rnd_sample(rng: &mut Rng, fmt: &str, peak_i: i64, fine: bool) -> Value {
     let n = rng.range(-peak_i, peak_i);
+    if fmt == "i32" {
+        let v = n * 65536 + rng.below(65536) as i64;
+        return big(v.clamp(i32::MIN as i64, i32::MAX as i64) as i128);
+    }
     if !fine || fmt == "i16" {
         return json!(n);
     }
@@ -232,16 +241,19 @@ fn rnd_frame(rng: &mut Rng, fmt: &str, ch: usize, peak_i: i64, fine: bool) -> Va
 
 pub fn gen(rng: &mut Rng, tier: &str, execs: &mut Vec<Vec<Value>>) {
     let thorough = tier == "thorough";
-    let combos: [(&str, usize); 6] = [("f64", 1), ("f32", 1), ("i16", 1), ("f64", 2), ("f32", 2), ("i16", 2)];
+    let combos: [(&str, usize); 8] =
+        [("f64", 1), ("f32", 1), ("i16", 1), ("i32", 1), ("f64", 2), ("f32", 2), ("i16", 2), ("i32", 2)];
     for depth in 1..=32usize {
-        // quick: two frame types per depth (rotating, every type at small and large depths); thorough: all six
+        // quick: two frame types per depth (rotating, every type at small and large depths); thorough: all eight
         let sel: Vec<(&str, usize)> = if thorough {
             combos.to_vec()
         } else {
-            vec![combos[depth % 3], combos[3 + (depth / 3) % 3]]
+            vec![combos[depth % 4], combos[4 + (depth / 2) % 4]]
         };
         for (fmt, ch) in sel {
-            let peak = if fmt == "i16" { 4000 } else { 30000 };
+            let int = fmt == "i16" || fmt == "i32";
+            // integer frames stay below 1/8 full scale where fractional positions are interpolated (tap sums)
+            let peak = if int { 4000 } else { 30000 };
             // (1) direct: priming with interpolation at every step, constant passage, clear, again
             let mut ex = vec![json!({"ev":"reset","comp":"sinc","cfg":{"depth":depth,"fmt":fmt,"ch":ch}})];
             let push = |v: Value| json!({"ev":"push","a":{"v":v}});
@@ -272,8 +284,10 @@ pub fn gen(rng: &mut Rng, tier: &str, execs: &mut Vec<Vec<Value>>) {
             }
             execs.push(ex);
             // (2) through the Converter at ratio 1
+            // (on the grid only the centre tap has a non-zero weight: i32 sources run up to full scale)
             let n_src = 2 * depth + 6;
-            let src: Vec<Value> = (0..n_src).map(|_| rnd_frame(rng, fmt, ch, peak, true)).collect();
+            let cpeak = if fmt == "i32" { 32767 } else { peak };
+            let src: Vec<Value> = (0..n_src).map(|_| rnd_frame(rng, fmt, ch, cpeak, true)).collect();
             let ctor = *rng.pick(&["scale", "sample", "hz"]);
             let mut ex = vec![json!({"ev":"reset","comp":"sinc_conv","cfg":{"depth":depth,"fmt":fmt,"ch":ch,"ctor":ctor,"src":src}})];
             for _ in 0..(n_src + depth + 3) {
@@ -282,11 +296,21 @@ pub fn gen(rng: &mut Rng, tier: &str, execs: &mut Vec<Vec<Value>>) {
             execs.push(ex);
             // (3) linearity: a, b, a+b, 2^k a.  Values are chosen so that a+b and 2^k a are exact:
             // integer samples multiples of 2^|k| when k < 0; floats = 20-bit dyadics in a common binade
-            let k = if fmt == "i16" { rng.range(-2, 2) } else { rng.range(-8, 8) };
+            let k = if int { rng.range(-2, 2) } else { rng.range(-8, 8) };
             let mut ex = vec![json!({"ev":"reset","comp":"sinc_lin","cfg":{"depth":depth,"fmt":fmt,"ch":ch,"k":k}})];
-            let lim: i64 = if fmt == "i16" { 1000 } else { 12000 };
-            let q: i64 = if fmt == "i16" && k < 0 { 1 << (-k) } else { 1 };
-            let one = |rng: &mut Rng| Value::Array((0..ch).map(|_| json!(rng.range(-lim / q, lim / q) * q)).collect());
+            // (i32: explicit values up to 2^26, again more significant bits than an f32 holds)
+            let lim: i64 = if fmt == "i16" { 1000 } else if fmt == "i32" { 1 << 26 } else { 12000 };
+            let q: i64 = if int && k < 0 { 1 << (-k) } else { 1 };
+            let one = |rng: &mut Rng| {
+                Value::Array(
+                    (0..ch)
+                        .map(|_| {
+                            let v = rng.range(-lim / q, lim / q) * q;
+                            if fmt == "i32" { big(v as i128) } else { json!(v) }
+                        })
+                        .collect(),
+                )
+            };
             for _ in 0..(2 * depth + 4) {
                 let va = one(rng);
                 let vb = one(rng);
